@@ -64,17 +64,21 @@ pub fn close_position(
     // this should always be a valid operation as calculate_weight will return >= amount
     let weight_to_reduce = calculate_weight(unbonding_duration, to_close_position.amount)?;
 
-    // reduce the global weight
-    GLOBAL_WEIGHT.update::<_, StdError>(deps.storage, |global_weight| {
-        Ok(global_weight.saturating_sub(weight_to_reduce))
-    })?;
-
     // reduce the weight for the user
     let mut user_weight = ADDRESS_WEIGHT
         .may_load(deps.storage, info.sender.clone())?
         .unwrap_or_default();
+    // the weight of an expanded position was added piecewise (weight(a) + weight(b) can be lower
+    // than weight(a + b) due to rounding), so never remove more than the user actually has, and
+    // remove exactly the same amount from the global weight to keep both in sync
+    let weight_to_reduce = weight_to_reduce.min(user_weight);
     user_weight = user_weight.saturating_sub(weight_to_reduce);
     ADDRESS_WEIGHT.save(deps.storage, info.sender.clone(), &user_weight)?;
+
+    // reduce the global weight
+    GLOBAL_WEIGHT.update::<_, StdError>(deps.storage, |global_weight| {
+        Ok(global_weight.saturating_sub(weight_to_reduce))
+    })?;
 
     let current_epoch = helpers::get_current_epoch(deps.as_ref())?;
 
